@@ -227,6 +227,23 @@ example :
         (.methodCall { path := some "/a".toList, member := some "m".toList, interface := some "a.".toList })).2.toOption.isNone
       = true := by decide +kernel
 
+/-- The premises of `parse_marshal_with_C01` are satisfiable: `MethodCallMessage('/a', 'm', signature='i', body=[7], oobFDs=[])`. -/
+example :
+    let ts : List Ty := [.basic .i]
+    let items : List PyVal := [.int .plain 7]
+    let vs : List Val := [.int 7]
+    allWF ts = true ∧ Code.topItems (.list items) = .ok items ∧
+      Code.RepFields [] vs true ts items 0 0 ∧ Code.KeysOKList items ∧
+      Spec.encodeAll Code.genAlign (endianOf true) ts vs 0 = some [7, 0, 0, 0] ∧ depthAll vs ≤ 2 ∧
+      ((construct Gen.Message.tables (wireCodec 2) (fun _ => false) Gen.Message.maxMsgLen (St.init Gen.Message.tables)
+        (.methodCall { path := some "/a".toList, member := some "m".toList, signature := some (renderAll ts),
+                       body := some (.list items), oobFDs := some [] })).2.toOption.map Msg.rawBody) = some [7, 0, 0, 0] := by
+  refine ⟨by decide, rfl, ?_, ?_, by decide +kernel, by decide, by decide +kernel⟩
+  · refine ⟨_, _, _, _, 0, rfl, rfl, ?_, ⟨rfl, rfl, rfl⟩⟩
+    simp only [Code.Rep]
+    exact ⟨.i, rfl, Or.inr ⟨by decide, ⟨_, rfl⟩, rfl⟩⟩
+  · simp [Code.KeysOKList, Code.KeysOK]
+
 /-! ## Witnesses: the code before the repairs violates the property (the replays of F4 and F5) -/
 
 /-- F4 (repaired by 7466ae7): before the repair `parseMessage` ignored the flags byte - a call built with
